@@ -1273,6 +1273,9 @@ def _seed_cases(rng, S, chains, scheme):
             out.append(("%s-last=%d" % (nm, last), put(c)))
         out.append(("%s-tail-nonzero" % nm, put(ch + [0, 17]) if len(ch) + 2 <= cap else None))
         out.append(("%s-extra-17" % nm, put(ch + [17]) if len(ch) + 1 <= cap else None))
+        for small in (1, 2, 16):
+            # a value that cannot continue the chain (<= 16) directly behind its last element: not "zeros after the chain"
+            out.append(("%s-extra-%d" % (nm, small), put(ch + [small]) if len(ch) + 1 <= cap else None))
         out.append(("%s-truncated" % nm, put(ch[:-1])))
         out.append(("%s-all-zero" % nm, put([])))
         out.append(("%s-huge" % nm, put(ch[:1] + [SIZE_MAX // 5 - 1] + ch[2:])))
